@@ -721,6 +721,77 @@ fn stress_delete(pr: &PropRun) -> LaneReport {
     rep
 }
 
+/// Free-running stress: creators run `get_or_create_*(key, |s| s += 1)` while a sweeper keeps removing storages that are
+/// still at zero (the idle-sweep pattern). The closure runs on the entry atomically with its creation, so a storage is
+/// never visible at zero: nothing is ever swept, one storage per key is built and it ends at the number of operations.
+fn stress_create_vs_sweep(pr: &PropRun) -> LaneReport {
+    let start = std::time::Instant::now();
+    let mut rep = LaneReport::named("stress-create-vs-sweep");
+    let rounds = pr.cfg.cases(300, 10_000);
+    let mut bad: Option<(String, String)> = None;
+    for round in 0..rounds {
+        let shared = Arc::new(Shared::default());
+        let registry: Registry<Key, CountingStorage> = Registry::new(CountingStorage(shared.clone()));
+        let kind = (round % 3) as u8;
+        let nkeys = 24usize;
+        let stop = std::sync::atomic::AtomicBool::new(false);
+        let go = std::sync::atomic::AtomicBool::new(false);
+        std::thread::scope(|s| {
+            for t in 0..3usize {
+                let (registry, go) = (&registry, &go);
+                s.spawn(move || {
+                    while !go.load(Ordering::Acquire) {
+                        std::hint::spin_loop();
+                    }
+                    for i in 0..nkeys {
+                        let key = Key::from_parts("fresh", vec![metrics::Label::new("k", ((i + t * 7) % nkeys).to_string())]);
+                        let _: u64 = by_kind!(kind, registry, get_or_create_counter, get_or_create_gauge, get_or_create_histogram, &key, |s| s.value.fetch_add(1, Ordering::SeqCst));
+                    }
+                });
+            }
+            {
+                let (registry, go, stop) = (&registry, &go, &stop);
+                s.spawn(move || {
+                    while !go.load(Ordering::Acquire) {
+                        std::hint::spin_loop();
+                    }
+                    while !stop.load(Ordering::Acquire) {
+                        let keep = |_: &Key, s: &Arc<Slot>| s.value.load(Ordering::SeqCst) != 0;
+                        by_kind!(kind, registry, retain_counters, retain_gauges, retain_histograms, keep);
+                    }
+                });
+            }
+            go.store(true, Ordering::Release);
+            // the scope joins the creators; the sweeper is told to stop once they are done
+            std::thread::sleep(std::time::Duration::from_micros(300));
+            stop.store(true, Ordering::Release);
+        });
+        // (creators may still have been running when stop was set: the scope has joined everybody by now)
+        let total: u64 = match kind {
+            0 => registry.get_counter_handles().values().map(|s| s.value.load(Ordering::SeqCst)).sum(),
+            1 => registry.get_gauge_handles().values().map(|s| s.value.load(Ordering::SeqCst)).sum(),
+            _ => registry.get_histogram_handles().values().map(|s| s.value.load(Ordering::SeqCst)).sum(),
+        };
+        let built = shared.built.lock().unwrap().len();
+        let mut ctx = Ctx::default();
+        ctx.fingerprint = Some(round);
+        ctx.nontrivial("creators-race-an-idle-sweep");
+        if round == 0 {
+            ctx.desc = Some(format!("3 threads x get_or_create(key, |s| s += 1) over {} keys of one kind while a fourth thread sweeps storages that are at zero", nkeys));
+        }
+        rep.account(ctx);
+        if built != nkeys || total != (3 * nkeys) as u64 {
+            bad = Some(("freshly-created-storage-swept-before-its-first-operation".into(), format!("round {} (kind {}): {} keys, {} storages were constructed and the surviving ones hold {} of {} operations — a sweep of zero-valued storages removed one between its creation and the operation the creating call runs on it", round, kind, nkeys, built, total, 3 * nkeys)));
+            break;
+        }
+    }
+    if let Some((sig, msg)) = bad {
+        rep.violations.push(Violation { lane: "stress-create-vs-sweep".into(), sig, msg, bytes: vec![], sched: vec![], decoded: "free-running threads (not deterministically replayable)".into() });
+    }
+    rep.wall_s = start.elapsed().as_secs_f64();
+    rep
+}
+
 /// Child process: the sequential lane under a CPU affinity mask (1/2/4/16 shards).
 pub fn child(seed: u64) -> i32 {
     let ncpu = [1usize, 2, 4, 16][(seed % 4) as usize];
@@ -772,6 +843,8 @@ pub fn run(cfg: &RunCfg, replay: Option<&str>) -> i32 {
     let r = stress(&pr);
     pr.push(r);
     let r = stress_delete(&pr);
+    pr.push(r);
+    let r = stress_create_vs_sweep(&pr);
     pr.push(r);
     let r = crate::engine::child::run_children(&pr, "C06", "shard-count-processes", pr.cfg.cases(16, 400), |seed| format!("sequential lane with CPU affinity to {} cpus", [1, 2, 4, 16][(seed % 4) as usize]));
     pr.push(r);
